@@ -108,10 +108,14 @@ func (cv0 *HookConfigV0) ConvertAndCheck(c *HookConfig) error {
 		}
 		monitor.WithLabelSelector(kubeCfg.Selector)
 		monitor.JqFilter = kubeCfg.JqFilter
+		// A legacy binding context is rendered from the object itself
+		// (resourceNamespace, resourceKind, resourceName), so objects should be kept.
+		monitor.KeepFullObjectsInMemory = true
 
 		kubeConfig := htypes.OnKubernetesEventConfig{}
 		kubeConfig.Monitor = monitor
 		kubeConfig.AllowFailure = kubeCfg.AllowFailure
+		kubeConfig.KeepFullObjectsInMemory = true
 		if kubeCfg.Name == "" {
 			kubeConfig.BindingName = "onKubernetesEvent"
 		} else {
